@@ -230,6 +230,18 @@ func (w *c19world) inRemoved(ip netip.Addr, a uint64) bool {
 	return false
 }
 
+// overlappingOps: some successful add and remove of a dynamic route containing ip ran concurrently.
+func (w *c19world) overlappingOps(ip netip.Addr) bool {
+	for i, a := range w.ops {
+		for _, b := range w.ops[i+1:] {
+			if a.pfx == b.pfx && a.pfx.Contains(ip) && a.ok && b.ok && a.action != b.action && a.inv <= b.ret && b.inv <= a.ret {
+				return true
+			}
+		}
+	}
+	return false
+}
+
 func (w *c19world) nothingPermitted(a, b uint64) bool {
 	if len(w.cfgNets) > 0 || len(w.cfgDomains) > 0 {
 		return false
@@ -333,6 +345,9 @@ func (w *c19world) checkDials() {
 		detail := fmt.Sprintf("exit %s dialled %s (err=%q) for request %s; configured nets=%v domains=%v enabled=%v; route history=%s", exName, d.Address, d.Err, w.reqStr(first), w.cfgCIDRs, w.cfgDomains, w.enabled, w.opsStr())
 		switch {
 		case ip.IsValid() && w.inRemoved(ip, from):
+			if w.overlappingOps(ip) {
+				simrt.Failf("dial-into-removed-route", "exit dialled into a dynamic route that had been removed (its add and remove requests overlapped in time)", "(%s) %s", form, detail)
+			}
 			simrt.Failf("dial-into-removed-route", "exit dialled into a dynamic route that had been removed", "(%s) %s", form, detail)
 		case w.nothingPermitted(from, d.Seq):
 			simrt.Failf("dial-with-nothing-permitted", "exit dialled although no network, route or pattern was configured ("+form+")", "%s", detail)
